@@ -25,7 +25,7 @@ LEVEL_TEXT = ('Every observation returned by the real (factory-built) observatio
 LEVEL_NOTE = ('Trusted: refmodel.view_to_world and the FRONT/RIGHT tables. partially_occluded is only driven with ymax = 0 '
               '(its documented limitation).')
 SHARDS = {'quick': 4, 'thorough': 16}
-BUDGET_S = {'quick': 60, 'thorough': 600}
+BUDGET_S = {'quick': 300, 'thorough': 2400}
 RULE = ('case = (state, view area, observation function[, seed]). non-trivial = the view sticks out of the grid on at least '
         'one side or the heading is not FORWARD; distinct by (function, area, deep state encoding).')
 ASSUMPTIONS = ['reference geometry: view cell (i,j) of area [(y0,y1),(x0,x1)] shows agent + (-(y0+i))*front + (x0+j)*right']
@@ -33,13 +33,15 @@ EXHAUSTIVE_NOTE = 'all 48 poses of a 3x4 grid x all 81 areas within [-2,2]^2 con
 REQUIRED = {'quick': {'obs.checked': 15000, 'exhaustive.cases': 10000, 'cells.shown': 50000, 'cells.outside': 20000,
                       'heading.LEFT': 500, 'heading.RIGHT': 500, 'heading.BACKWARD': 500, 'shipped.obs': 1000,
                       'fn.fully_transparent': 1000, 'fn.partially_occluded': 500, 'fn.raytracing': 1000,
-                      'fn.stochastic_raytracing': 1000}}
+                      'fn.stochastic_raytracing': 1000, 'fn.parametrised_visibility': 500}}
 
 
 def check_observation(ctx, state, area, name, obs, payload_fn, label=''):
     """the soundness oracle"""
     ctx.hit('obs.checked')
-    ctx.hit('fn.' + name.split(':')[-1])
+    ctx.hit('fn.' + name.split(':')[-1].split('@')[0])
+    if '@' in name:
+        ctx.hit('fn.parametrised_visibility')
     ctx.hit('heading.' + state.agent.orientation.name)
     rows = obs.grid.objects
     H, W = area.ymax - area.ymin + 1, area.xmax - area.xmin + 1
@@ -138,7 +140,7 @@ def random_cases(ctx, n):
         rng = gen.rng_for('C05rand', ctx.seed, ctx.shard, k)
         state, area, cat = obsgen.rand_case(rng)
         ctx.cat('pose.' + cat)
-        for name in obsgen.ALL:
+        for name in obsgen.ALL + obsgen.PARAMETRISED:
             if obsgen.supported(name, area):
                 for rep in range(3 if name == 'stochastic_raytracing' else 1):
                     observe(ctx, state, area, name, via_vis=rng.random() < 0.3, seed=rng.randrange(2**32))
